@@ -409,6 +409,19 @@ class Schema(dict, metaclass=LogicalMeta):
             raise exc.DeleteError(
                 f"{self.__name__}: Attempt to popitem in immutable schema"
             )
+        if self:
+            # the item to pop is the last one: apply the same checks as pop(key)
+            key = next(reversed(self))
+            field = self.__parser__.get_field(key)
+            if field:
+                if field.immutable:
+                    raise exc.DeleteError(
+                        f"{self.__name__}: Attempt to pop immutable item: [{repr(key)}]"
+                    )
+                if field.is_required(self.__options__):
+                    raise exc.DeleteError(
+                        f"{self.__name__}: Attempt to delete required schema key: {repr(key)}"
+                    )
         return super().popitem()
 
     def pop(self, key: str, default=unprovided):
